@@ -887,6 +887,24 @@ def removeclient (w : World) (ci : Nat) : World :=
     let w := c.replyq.foldl freerq w
     updCli w ci fun c => { c with replyq := [], alive := false }
 
+/-! ### reference accounting (C17) -/
+
+/-- how many places hold a pointer to request object `o`: duplicate-cache entries, outstanding
+    slots, reply-queue entries, and the UDP reader's pre-allocated request -/
+def holders (w : World) (o : Nat) : Nat :=
+  (w.clients.map fun c => (c.cache.filter (· == some o)).length + (c.replyq.filter (· == o)).length).sum +
+  (w.servers.map fun s => (s.slots.filter (·.rq == some o)).length).sum +
+  (if w.udpPending = some o then 1 else 0)
+
+/-- every live object is referenced exactly as often as its count says, and at least once -/
+def refInvOk (w : World) : Bool := w.heap.all fun p => p.2.refs == holders w p.1 && 1 ≤ p.2.refs
+
+/-- nothing points at a released object -/
+def noDangling (w : World) : Bool :=
+  let live (o : Nat) : Bool := (getRq w o).isSome
+  (w.clients.all fun c => (c.cache.all fun e => match e with | some o => live o | none => true) && c.replyq.all live) &&
+  (w.servers.all fun s => s.slots.all fun sl => match sl.rq with | some o => live o | none => true)
+
 /-- connection re-established (tail of tcpconnect/tlsconnect) -/
 def connReset (w : World) (si : Nat) : World :=
   updSrv w si fun s => { s with state := 2, lost := 0, conreset := true }
